@@ -266,7 +266,7 @@ impl Prop for C12Prop {
             Section {
                 name: "compiled",
                 kind: SectionKind::Random {
-                    cases: tier.pick(400, 20_000),
+                    cases: tier.pick(400, 8_000),
                     maxlen: 6000,
                 },
                 exhaustive: false,
